@@ -1,0 +1,11 @@
+//go:build verif && (amd64 || arm64)
+
+package websocket
+
+// VerifMaskAsm exposes the assembly masking implementation (not called by mask() at this commit).
+func VerifMaskAsm(b []byte, key uint32) uint32 {
+	if len(b) > 0 {
+		return maskAsm(&b[0], len(b), key)
+	}
+	return key
+}
